@@ -42,15 +42,26 @@ def run(chk):
     dc.driver()
     K = dc.BALANCE_KINDS
     KS = K + ["Sponsor"]
+    big = []
     if thorough:
-        jobs = [("bal-basic", "basic", K, 9, 1, 0, 2000, 4, 4), ("bal-basic-pairs", "basic", KS, 8, 2, 0, 3000, 4, 20),
-                ("bal-votes", "votes", KS, 10, 1, 0, 2000, 4, 1), ("bal-votes-pairs", "votes", KS, 9, 2, 0, 2000, 4, 1),
-                ("bal-penalty", "penalty", K, 11, 1, 0, 1500, 4, 1), ("bal-penalty-pairs", "penalty", KS, 10, 2, 0, 700, 4, 1),
-                ("bal-cancel-pairs", "cancel", K, 12, 2, 0, 3000, 4, 4), ("bal-cancel", "cancel", K, 13, 1, 0, 2000, 4, 1)]
+        jobs = [("bal-basic", "basic", K, 9, 1, 0, 2000, 4, 6), ("bal-votes", "votes", KS, 11, 1, 0, 2500, 4, 8),
+                ("bal-votes-pairs", "votes", KS, 9, 2, 0, 2000, 4, 1), ("bal-penalty", "penalty", K, 11, 1, 0, 1500, 4, 1),
+                ("bal-penalty-pairs", "penalty", KS, 10, 2, 0, 700, 4, 1), ("bal-cancel-pairs", "cancel", K, 12, 2, 0, 3000, 4, 4),
+                ("bal-cancel", "cancel", K, 13, 1, 0, 2000, 4, 2)]
+        big = [("bal-basic-pairs", "basic", KS, 8, 2, 0), ("bal-votes-deep", "votes", KS, 10, 2, 0)]
     else:
         jobs = [("bal-votes", "votes", KS, 10, 1, 0, 240, 3, 2), ("bal-cancel", "cancel", K, 12, 1, 0, 240, 3, 1),
                 ("bal-basic", "basic", KS, 8, 2, 0, 200, 3, 20)]
-    allbehs = dc.explore_all(chk, jobs)
+    import concurrent.futures
+    vf._copy_spec(os.path.join(vf.SPEC, "Consensus"))
+    with concurrent.futures.ThreadPoolExecutor(max_workers=2) as ex:
+        xh = ex.submit(dc.exhaustive_all, chk, big) if big else None
+        sim = ex.submit(dc.simulate, chk, "bal-sim", "basic", KS, 30, 40, vf.seed()) if thorough else None
+        allbehs = dc.explore_all(chk, jobs)
+        if xh:
+            xh.result()
+        if sim:
+            chk.absorb(sim.result()[1], "replay simulated 30-block sequences")
 
     # binding self-tests: (a) a corrupted expected balance, (b) a refused over-limit request relabelled as acceptable
     behs = allbehs[0]
@@ -75,9 +86,6 @@ def run(chk):
     chk.selftest("replay: an accepted request relabelled as one the checker must reject",
                  any(x.get("kind") in ("mismatch", "violation") for x in recs))
 
-    if thorough:
-        behs, recs = dc.simulate(chk, "bal-sim", "basic", K + ["Sponsor"], 30, 800, vf.seed())
-        chk.absorb(recs, "replay simulated 30-block sequences")
     chk.assumptions += dc.ASSUMPTIONS + [
         "the CR half of the property (ReturnCRDepositCoin, CR candidate / member deposits in cr/state) is not covered",
         "a penalty larger than the free part of a deposit makes AvailableAmount negative by design; the rule checked is that no "
